@@ -105,9 +105,16 @@ func (r *runner) do(req *request) (*outcome, error) {
 	}
 	b, _ := json.Marshal(req)
 	if _, err := r.c.in.Write(append(b, '\n')); err != nil {
-		r.c.stop()
+		r.c.cmd.Wait()
+		msg := r.c.stderr.String()
+		if d := os.Getenv("C03_DEBUG"); d != "" {
+			os.WriteFile(fmt.Sprintf("%s/wfail-%d.txt", d, time.Now().UnixNano()), []byte("PREV "+r.prev+"\n"+msg), 0o644)
+		}
 		r.c = nil
-		return nil, fmt.Errorf("cannot write to child: %w", err)
+		if len(msg) > 400 {
+			msg = msg[:400]
+		}
+		return nil, fmt.Errorf("the child died after completing the previous request (%s): %s", r.prev, msg)
 	}
 	stage := "start"
 	var trail []string
